@@ -509,8 +509,9 @@ def slice_dim(f, slicedef, fuzzydim=True):
             p2p.addVariable(inf, outf, varkey)
         else:
             axis = list(var.dimensions).index(dimkey)
+            # (a copy: the output must not share memory with the input)
             vout = var[...].swapaxes(
-                0, axis)[dmin:dmax:dstride].swapaxes(0, axis)
+                0, axis)[dmin:dmax:dstride].swapaxes(0, axis).copy()
 
             newlen = vout.shape[axis]
             newdim = outf.createDimension(dimkey, newlen)
